@@ -97,6 +97,19 @@ template <class U> static void dump_unit_type(const char* tname, const std::vect
     first = false;
     (void)n;
   }
+  // what the run-time conversion actually does with 0 and 1 in each unit (long double): [to_standard(0), to_standard(1), from_standard(0), from_standard(1)]
+  o << "],\n  \"converts\":[";
+  first = true;
+  for (auto& [n, e] : decl) {
+    o << (first ? "" : ",");
+    first = false;
+    (void)n;
+    if (dispatch_mask<U, long double>(e) != 3) { o << "null"; continue; }
+    char b[256];
+    std::snprintf(b, sizeof b, "[\"%.21Lg\",\"%.21Lg\",\"%.21Lg\",\"%.21Lg\"]", Convert<U, long double>(0.0L, e, Standard<U>), Convert<U, long double>(1.0L, e, Standard<U>),
+                  Convert<U, long double>(0.0L, Standard<U>, e), Convert<U, long double>(1.0L, Standard<U>, e));
+    o << b;
+  }
   o << "],\n  \"consistent_units_size\":" << Internal::ConsistentUnits<U>.size() << ",\"related_unit_systems_size\":" << Internal::RelatedUnitSystems<U>.size();
   o << ",\n  \"consistent_unit\":{";
   first = true;
